@@ -230,24 +230,33 @@ class _MetricCache(defaultdict):
     `DrainStrategy`_"""
     if not self:
       return (None, [])
-    if self.strategy:
-      with self.lock:
+    # Choose and remove under one lock acquisition, so that the strategy's
+    # bookkeeping and the cache contents cannot be seen out of step by store().
+    with self.lock:
+      if self.strategy:
         metric = self.strategy.choose_item()
-    else:
-      # Avoid .keys() as it dumps the whole list
-      metric = next(iter(self))
-    if metric is None:
-      return (None, [])
-    return (metric, self.pop(metric))
+      else:
+        # Avoid .keys() as it dumps the whole list
+        metric = next(iter(self), None)
+      if metric is None:
+        return (None, [])
+      datapoint_index = self._pop(metric)
+    self._check_available_space()
+    return (metric, sorted(datapoint_index.items(), key=by_timestamp))
 
   def get_datapoints(self, metric):
     """Return a list of currently cached datapoints sorted by timestamp"""
     return sorted(self.get(metric, {}).items(), key=by_timestamp)
 
+  def _pop(self, metric):
+    # The caller must hold self.lock
+    datapoint_index = defaultdict.pop(self, metric)
+    self.size -= len(datapoint_index)
+    return datapoint_index
+
   def pop(self, metric):
     with self.lock:
-      datapoint_index = defaultdict.pop(self, metric)
-      self.size -= len(datapoint_index)
+      datapoint_index = self._pop(metric)
     self._check_available_space()
 
     return sorted(datapoint_index.items(), key=by_timestamp)
